@@ -92,6 +92,7 @@ def build_read(header, name, contig, ref_upper, rd, mate_rd, umi, extra_tags):
         a.next_reference_start = mate_rd['start']
     a.set_tag('SM', 'cellA')
     a.set_tag('RX', umi)
+    a.set_tag('BC', 'AACCGGTT')
     for k, v in extra_tags.items():
         a.set_tag(k, v)
     a.set_tag('MD', md_tag(ref_upper, rd['start'], rd['cigar'], a.query_sequence))
@@ -124,6 +125,7 @@ class Runner:
         ev = {'ev': 'mol', 'tid': tid, 'src': mol['src'], 'cls': mol['cls'], 'conv': mol['conv'], 'contig': contig,
               'ref': list(ref), 'raised': '', 'strand': -1, 'frags': [], 'calls': [], 'n_frags_offered': len(mol['frags']),
               'pre': mol.get('pre', ''), 'refobj': mol.get('refobj', 'fasta'), 'history': mol.get('history', 'once'),
+              'post': mol.get('post', 'none'), 'post_raised': '',
               'gen': json.dumps({'tags': mol.get('tags', {}), 'frag_kwargs': mol.get('frag_kwargs', {}),
                                  'unmap': mol.get('unmap', [])})}
         m, requeried = None, None
@@ -141,12 +143,17 @@ class Runner:
                 frags.append(fcls([r1, r2], **mol.get('frag_kwargs', {})))
             refobj = self.cached if mol.get('refobj') == 'cached' else self.fa
             hist = mol.get('history', 'once')
-            if hist == 'incremental' and len(frags) > 1:
-                # history: finalise on the first fragment, extend, finalise again (no stale calls / tags may survive)
-                m = mcls([frags[0]], reference=refobj, taps=self.taps, taps_strand=mol['conv'])
+            if hist == 'incremental':
+                # history: start empty, finalise on the first fragment, extend, finalise again (no stale calls / tags may survive)
+                m = mcls(None, reference=refobj, taps=self.taps, taps_strand=mol['conv'])
+                m.add_fragment(frags[0])
                 m.__finalise__()
                 for fr in frags[1:]:
                     m.add_fragment(fr)
+                if len(frags) > 1:
+                    m.__finalise__()
+            elif len(frags) == 1 and tid % 2:
+                m = mcls(frags[0], reference=refobj, taps=self.taps, taps_strand=mol['conv'])   # a bare fragment, not a list
                 m.__finalise__()
             else:
                 m = mcls(frags, reference=refobj, taps=self.taps, taps_strand=mol['conv'])
@@ -157,6 +164,26 @@ class Runner:
         except Exception as ex:  # a crash of the code under test on a legal input is an observation
             ev['raised'] = type(ex).__name__
             ev['raised_msg'] = str(ex)[:200]
+        # what the taggers do next: write_tags() on the molecule's reads, or the molecule's tags on new (pseudo) reads
+        tag_source = {}
+        post = mol.get('post', 'none')
+        if m is not None and not ev['raised'] and post != 'none':
+            try:
+                if post == 'write_tags':
+                    m.write_tags()
+                elif post == 'pseudo' and mol['cls'] != 'base':
+                    originals = list(m.iter_reads())
+                    copies = []
+                    for r in originals:
+                        c = pysam.AlignedSegment.fromstring(r.to_string(), self.header)
+                        for t in ['XM', 'YC', 'XR', 'XG'] + TOT_TAGS:
+                            c.set_tag(t, None)
+                        copies.append(c)
+                    m.write_tags_to_psuedoreads(copies)
+                    tag_source = {id(r): c for r, c in zip(originals, copies)}
+            except Exception as ex:
+                ev['post_raised'] = type(ex).__name__
+                tag_source = {}
         if m is not None:
             ev['strand'] = -1 if m.strand is None else int(bool(m.strand))
             for fr in m.fragments:
@@ -164,12 +191,13 @@ class Runner:
                 for r in fr.reads:
                     if r is None or r.is_unmapped:
                         continue
+                    tr = tag_source.get(id(r), r)     # the record that carries the tags to be judged
                     reads.append({'mate': 1 if r.is_read1 else 2, 'rev': bool(r.is_reverse), 'start': int(r.reference_start),
                                   'cigar': [[int(o), int(n)] for o, n in r.cigartuples],
                                   'seq': list(r.query_sequence), 'qual': [int(x) for x in r.query_qualities],
-                                  'has_xm': bool(r.has_tag('XM')),
-                                  'xm': list(r.get_tag('XM')) if r.has_tag('XM') else [],
-                                  'tot': {t: (int(r.get_tag(t)) if r.has_tag(t) else -1) for t in TOT_TAGS}})
+                                  'has_xm': bool(tr.has_tag('XM')),
+                                  'xm': list(tr.get_tag('XM')) if tr.has_tag('XM') else [],
+                                  'tot': {t: (int(tr.get_tag(t)) if tr.has_tag(t) else -1) for t in TOT_TAGS}})
                 ev['frags'].append({'reads': reads})
             d = requeried if (not ev['raised'] and mol.get('history') == 'requery') else m.methylation_call_dict
             ev['dict_none'] = d is None
@@ -177,6 +205,28 @@ class Runner:
                 ev['calls'].append({'contig': str(c), 'p': int(p), 'letter': str(v.get('context', '.')),
                                     'cons': str(v.get('consensus', '')), 'refbase': str(v.get('reference_base', ''))})
         return ev
+
+
+    def contexts(self, tid0, contig, rng, n_obs):
+        """the public lookup itself: TAPS.position_to_context at every position of a contig, with the true reference base as
+        ref_base (so also bases that are neither C nor G) and observed bases in either case"""
+        ref = self.refs[contig]
+        out = []
+        for p in range(len(ref)):
+            for obs in rng.sample(['A', 'C', 'G', 'T', 'N', 'a', 'c', 'g', 't'], n_obs):
+                handle = rng.choice(['fasta', 'cached'])
+                ev = {'ev': 'ctx', 'tid': tid0 + len(out), 'src': 'position_to_context', 'contig': contig, 'ref': list(ref), 'p': p,
+                      'obs': obs, 'refobj': handle, 'raised': '', 'symbol': '', 'context': ''}
+                try:
+                    ctx, sym = self.taps.position_to_context(chromosome=contig, position=p, ref_base=ref[p].upper(), observed_base=obs,
+                                                             strand=rng.random() < 0.5,
+                                                             reference=self.cached if handle == 'cached' else self.fa)
+                    ev['symbol'] = str(sym)
+                    ev['context'] = '' if ctx is None else str(ctx)
+                except Exception as ex:
+                    ev['raised'] = type(ex).__name__
+                out.append(ev)
+        return out
 
 
 # ------------------------------------------------------------------------------------------------
@@ -340,11 +390,13 @@ def random_molecule(rng, k):
         # overlapping, contained, dove-tailed beyond the 5' end of read 1, read 1 running past read 2, disjoint
         a2, b2 = interval_choices(rng, n, [a1, b1, 0, n])
         c2 = make_cigar(rng, b2 - a2, allow_lead_clip=True, allow_trail_clip=True)
-        r2 = synth_read(rng, ref_upper, target, meth, 2, not rev, a2, b2, c2, qs2, set(), err)
+        # 3%: both mates on the same strand (not an inward-facing pair: such a fragment has no safe span and must not vote)
+        r2 = synth_read(rng, ref_upper, target, meth, 2, rev if rng.random() < 0.03 else not rev, a2, b2, c2, qs2, set(), err)
         frags.append({'reads': [r1, r2]})
     mol = {'src': 'random', 'cls': cls, 'conv': conv, 'contig': 'r%d' % k, 'ref': ref_s, 'frags': frags,
            'tags': {'lh': 'TA'} if cls == 'chic' else {}, 'refobj': rng.choice(['fasta', 'cached']),
-           'history': rng.choice(['once', 'once', 'incremental', 'requery'])}
+           'history': rng.choice(['once', 'once', 'incremental', 'requery']),
+           'post': rng.choice(['none', 'write_tags', 'pseudo'])}
     if rng.random() < 0.02:
         # half-mapped pair (mate 2 unmapped): outside the statement's quantifier, recorded as an observation only
         pairs = [i for i, f in enumerate(frags) if len(f['reads']) == 2]
@@ -389,7 +441,8 @@ def scenario_molecule(scn, k, src):
             'tags': {'lh': 'TA'} if cls == 'chic' else {},
             'frag_kwargs': {'check_motif': False} if cls == 'nla' else {},
             'refobj': ('fasta', 'cached')[(k // 3) % 2],
-            'history': ('once', 'incremental', 'requery')[(k // 6) % 3]}
+            'history': ('once', 'incremental', 'requery')[(k // 6) % 3],
+            'post': ('none', 'write_tags', 'pseudo')[(k // 18) % 3]}
 
 
 def replay_event(ev_path, out):
@@ -401,7 +454,8 @@ def replay_event(ev_path, out):
            'frags': [{'reads': [{k: r[k] for k in ('mate', 'rev', 'start', 'cigar', 'seq', 'qual')} for r in f['reads']]}
                      for f in ev['frags']],
            'tags': gen.get('tags', {}), 'frag_kwargs': gen.get('frag_kwargs', {}), 'unmap': gen.get('unmap', []),
-           'pre': ev.get('pre', ''), 'refobj': ev.get('refobj', 'fasta'), 'history': ev.get('history', 'once')}
+           'pre': ev.get('pre', ''), 'refobj': ev.get('refobj', 'fasta'), 'history': ev.get('history', 'once'),
+           'post': ev.get('post', 'none')}
     contigs = [(mol['contig'], mol['ref'])]
     fasta = os.path.join(os.getcwd(), 'taps_replay_%d.fa' % os.getpid())
     write_fasta(fasta, contigs)
@@ -441,6 +495,13 @@ def main():
         for tid, m in enumerate(mols, 1):
             ev = runner.run(tid, m)
             f.write(json.dumps(ev, separators=(',', ':')) + '\n')
+        # the lookup called directly on the contigs of the first random molecules
+        tid = len(mols) + 1
+        for m in mols[:25 if tier == 'quick' else 1500]:
+            if m['src'] == 'random' or m['src'] == 'halfmapped':
+                for ev in runner.contexts(tid, m['contig'], rng, 3):
+                    f.write(json.dumps(ev, separators=(',', ':')) + '\n')
+                    tid += 1
     runner.fa.close()
     os.remove(fasta)
     os.remove(fasta + '.fai')
